@@ -19,7 +19,7 @@ import socket
 from . import _conn
 from ._conn import op_json, op_unjson
 
-TRANSLATORS = []
+TRANSLATORS = ["conn"]
 
 MANIFEST = {
     "text": "Proof: decision theorems over Tls.Conn stated for arbitrary states/histories: after_close_notify (closed is absorbing: "
@@ -400,6 +400,7 @@ class DataOracle(object):
         self.closing = {"c": False, "s": False}   # close() with closeSocket off drops application data while it waits
         self.sock_closed = {"c": False, "s": False}
         self.close_sent = {"c": False, "s": False}
+        self.refs = {"c": 1, "s": 1}              # _refCount as the oracle counts it: 1 + makefile() - close()
         self.control_seen = False
 
     @staticmethod
@@ -482,7 +483,17 @@ class DataOracle(object):
             if kind == "ok" and self.dead[w] and not was_closed and name in ("ku", "pha"):
                 self.problems.append(("c17:send-error-swallowed-nonalert-pending",
                                       "op %d: %s returned normally although the transport cannot send" % (idx, name)))
+        elif name == "makefile":
+            self.refs[w] += 1
+        elif name == "close" and not was_closed and self.refs[w] != 1:
+            # _refCount: only the close() that drops the last reference does anything
+            self.refs[w] -= 1
+            if kind != "ok" or conn.closed:
+                self.problems.append(("c17:close-ignores-reference-count",
+                                      "op %d: close() with references outstanding gave %s, closed=%s" % (idx, cls or kind, conn.closed)))
         elif name == "close":
+            if not was_closed:
+                self.refs[w] -= 1
             if not was_closed and not conn.closeSocket:
                 self.closing[w] = True
             if kind == "ok" and conn.closed:
@@ -588,8 +599,10 @@ def fault_histories(rng, n):
                 ops.append((w, "read", rng.choice([None, 3]), rng.choice([0, 1, 4])))
             elif x < 0.88:
                 ops.append((w, "ku", rng.randrange(2)))
-            elif x < 0.94:
+            elif x < 0.93:
                 ops.append((w, "hb", rb(rng, 4), 16))
+            elif x < 0.96:
+                ops.append((w, "makefile"))
             else:
                 ops.append((w, "close"))
         for _ in range(2):
@@ -673,6 +686,34 @@ def close_reply_cases(ctx, lc):
                                               {"stage": "close-reply", "cfg": cfg_json(cfg), "ops": [op_json(x) for x in ops]})
 
 
+def refcount_cases(ctx, lc):
+    """makefile() reference counting and the two directions' close in every order: with k file objects
+    outstanding only the (k+1)-th close() closes; then both ends close, reads drain, sessions stay resumable"""
+    for ver in ((3, 4), (3, 3)):
+        for cs in ((True, True), (False, False), (True, False), (False, True)):
+            for k in (0, 1, 2):
+                for first in "cs":
+                    o = "s" if first == "c" else "c"
+                    cfg = dict(ver=ver, client_cert=False, tickets=0, hb=False, close_socket=cs)
+                    ops = [(first, "makefile")] * k + [(first, "write", b"bye")]
+                    for i in range(k):
+                        ops += [(first, "close"), (o, "read", None, 0), (first, "write", b"!")]
+                    ops += [(first, "close"), (o, "write", b"late"), (o, "read", None, 1), (o, "read", None, 1), (o, "close"),
+                            (first, "read", None, 0), (first, "read", None, 0), (o, "read", None, 0), (first, "close"),
+                            (first, "write", b"x"), (o, "write", b"y")]
+                    r = run_data(ctx, lc, cfg, ops, "refcount")
+                    ctx.count("refcount-case:k=%d" % k)
+                    if r is None:
+                        continue
+                    cn, orc, impl = r
+                    a, b = cn.conn(first), cn.conn(o)
+                    if not (a.closed and b.closed and a.session.resumable and b.session.resumable):
+                        ctx.violation("c17:orderly-close-both-directions",
+                                      "%s closeSocket=%s, %d file objects: after both ends closed in order: closed %s/%s, resumable %s/%s"
+                                      % (ver, cs, k, a.closed, b.closed, a.session.resumable, b.session.resumable),
+                                      {"stage": "refcount", "cfg": cfg_json(cfg), "ops": [op_json(x) for x in ops]})
+
+
 def keyed_cases(ctx, lc):
     """the deviations found earlier (repaired in /repo), kept as directed oracle cases"""
     base = dict(ver=(3, 4), client_cert=True, tickets=0)
@@ -720,6 +761,7 @@ def run(ctx):
     rng = ctx.rng
     keyed_cases(ctx, lc)
     close_reply_cases(ctx, lc)
+    refcount_cases(ctx, lc)
     handshake_faults(ctx, lc)
     handshake_alerts(ctx, lc)
     cfgs = list(data_cfgs(rng, ctx.pick(3, 8)))
